@@ -1,0 +1,107 @@
+//go:build verif
+
+package storage
+
+// Contracts for govc (/verif), properties C46 and C30. Comment-only file: no executable code, not part of the default build.
+//
+// ABSTRACT KEY-VALUE MODEL of the storage interfaces. Storer, Persister and Cacher are interfaces: their content is not
+// part of the Go heap the verifier sees. It is modelled by GHOST CELLS: for a store x and key content k, a spec function
+// yields an (uninterpreted) one-element slice; `cell[0]` reads the ghost value and `assigns elems(cell)` is a write of
+// exactly that cell. The inverse-function axioms make cells of different keys / fields / stores (different id) distinct.
+//   Persister  pcell(p,k)[0]   : 1 = p holds key k, 0 = p does not hold k
+//   Cacher     ccell(c,k)[0]   : 1 = k was put and not removed since (a cache may forget: hit ==> 1, never the converse)
+//   Storer     icell(s,k,f)[0] : integer field f of the record stored under k (f = 0: 1 = present), scell(s,k,f)[0]: byte-string field
+// Calls on these interfaces have no other effect on the Go heap (assumption: implementations copy or only retain the
+// byte slices they are given and never write into them).
+
+/*@
+spec fn pcell(p Persister, k string) []int
+  axiom pcKey(base(pcell(p, k))) == k
+  axiom pcPid(base(pcell(p, k))) == pid(p)
+  axiom cellKind(base(pcell(p, k))) == 1
+spec fn pcKey(r ref) string
+spec fn pcPid(r ref) int
+spec fn pid(p Persister) int
+spec fn pHolds(p Persister, k string) bool = pcell(p, k)[0] == 1
+
+spec fn ccell(c Cacher, k string) []int
+  axiom ccKey(base(ccell(c, k))) == k
+  axiom cellKind(base(ccell(c, k))) == 2
+spec fn ccKey(r ref) string
+
+spec fn icell(s Storer, k string, f int) []int
+  axiom icKey(base(icell(s, k, f))) == k
+  axiom icFld(base(icell(s, k, f))) == f
+  axiom icSid(base(icell(s, k, f))) == sid(s)
+  axiom cellKind(base(icell(s, k, f))) == 3
+spec fn scell(s Storer, k string, f int) []string
+  axiom scKey(base(scell(s, k, f))) == k
+  axiom scFld(base(scell(s, k, f))) == f
+  axiom scSid(base(scell(s, k, f))) == sid(s)
+spec fn icKey(r ref) string
+spec fn icFld(r ref) int
+spec fn icSid(r ref) int
+spec fn scKey(r ref) string
+spec fn scFld(r ref) int
+spec fn scSid(r ref) int
+spec fn sid(s Storer) int
+spec fn cellKind(r ref) int
+
+// ---- Persister ------------------------------------------------------------------------------------------------------
+func (p Persister) Put(key []byte, val []byte) (err error)
+  ensures stored: err == nil ==> pHolds(p, str(key))
+  assigns elems(pcell(p, str(key)))
+
+func (p Persister) Get(key []byte) (r []byte, err error)
+  ensures found-means-held: err == nil ==> pHolds(p, str(key))
+  ensures absent-is-error: pcell(p, str(key))[0] == 0 ==> err != nil
+  assigns nothing
+
+func (p Persister) Has(key []byte) (err error)
+  ensures found-means-held: err == nil ==> pHolds(p, str(key))
+  ensures absent-is-error: pcell(p, str(key))[0] == 0 ==> err != nil
+  assigns nothing
+
+func (p Persister) Remove(key []byte) (err error)
+  ensures removed: err == nil ==> pcell(p, str(key))[0] == 0
+  assigns elems(pcell(p, str(key)))
+
+func (p Persister) Close() (err error)
+  assigns nothing
+
+func (p Persister) Init() (err error)
+  assigns nothing
+
+// ---- Cacher ---------------------------------------------------------------------------------------------------------
+func (c Cacher) Put(key []byte, value interface{}, sizeInBytes int) (evicted bool)
+  ensures cached: ccell(c, str(key))[0] == 1
+  assigns elems(ccell(c, str(key)))
+
+func (c Cacher) Get(key []byte) (value interface{}, ok bool)
+  ensures hit-means-cached: ok ==> ccell(c, str(key))[0] == 1
+  assigns nothing
+
+func (c Cacher) Has(key []byte) (r bool)
+  ensures hit-means-cached: r ==> ccell(c, str(key))[0] == 1
+  assigns nothing
+
+func (c Cacher) Remove(key []byte)
+  ensures dropped: ccell(c, str(key))[0] == 0
+  assigns elems(ccell(c, str(key)))
+
+// ---- Storer (plain Put/Get as used by the lookup indexes) -----------------------------------------------------------
+func (s Storer) Put(key []byte, data []byte) (err error)
+  ensures stored: err == nil ==> icell(s, str(key), 0)[0] == 1 && scell(s, str(key), 0)[0] == str(data)
+  assigns elems(icell(s, str(key), 0)), elems(scell(s, str(key), 0))
+
+func (s Storer) Get(key []byte) (r []byte, err error)
+  ensures found: err == nil ==> icell(s, str(key), 0)[0] == 1 && scell(s, str(key), 0)[0] == str(r)
+  assigns nothing
+
+// ---- BloomFilter ----------------------------------------------------------------------------------------------------
+func (f BloomFilter) Add(data []byte)
+  assigns nothing
+
+func (f BloomFilter) MayContain(data []byte) (r bool)
+  assigns nothing
+@*/
